@@ -13,14 +13,14 @@ from clikit.api.exceptions import CliKitException
 from clikit.io.buffered_io import BufferedIO
 from clikit.ui.components.exception_trace import ExceptionTrace, Highlighter
 
-from harness.tracegen import inner
+from harness.tracegen import blankfirst, inner
 from harness.tracegen.lib import outer
 from vf.sym import conc_bool, conc_int, isolated, untraced
 
 PROPERTY = "C20"
 FUNCTIONS = ["ExceptionTrace.render/_render_exception/_render_trace/_render_snippet/_render_line/ignore_files_in", "Highlighter.code_snippet/highlighted_lines/split_to_lines/line_numbers"]
 PART = {}
-BOUNDS = {"quick": "kernel: every failing line 1..n, lines_before/after in [0,6] on sources of 1..9 lines; renders: 9 raise sites (top / middle / last line of the file, below a multi-line string containing a form feed and U+2028, "
+BOUNDS = {"quick": "kernel: every failing line 1..n, lines_before/after in [0,6] on sources of 1..9 lines; renders: 10 raise sites (top / middle / last line of the file, a file whose first line is blank, below a multi-line string containing a form feed and U+2028, "
                    "next to markup-like, tabbed and non-ASCII lines, multi-line statement, recursion 1/3/60, custom __str__, causes 1-2 deep, source-less) x 8 messages x 4 verbosities x simple on/off x UTF-8 on/off x 3 ignore patterns; two renders in one process",
           "thorough": "messages composed of two pieces; three renders in one process"}
 OUTSIDE = ["the highlighter over a corpus of arbitrary real Python files: tokenize is C code and realises symbolic text - arbitrary source text is NOT decided by this family; only the generated files are covered (concrete sources)",
@@ -36,8 +36,9 @@ _NS = {}
 exec(compile("def nosource(msg):\n    raise ValueError(msg)\n", "<generated-no-source>", "exec"), _NS)
 
 # (how to raise, expected class name, expected failing line in inner.py or None)
+BLANK_LINES = open(blankfirst.__file__, encoding="utf-8").read().split("\n")
 SITES = [("first", "ValueError", 2), ("markup", "KeyError", 10), ("multi", "RuntimeError", 16), ("deep1", "IndexError", 21), ("deep3", "IndexError", 21), ("deep60", "IndexError", 21),
-         ("custom", "Custom", 27), ("chained1", "RuntimeError", 37), ("chained2", "RuntimeError", 36), ("last", "ValueError", 38), ("nosource", "ValueError", None), ("nosource_mid", "ValueError", 2), ("library", "CliKitException", None)]
+         ("custom", "Custom", 27), ("chained1", "RuntimeError", 37), ("chained2", "RuntimeError", 36), ("last", "ValueError", 38), ("nosource", "ValueError", None), ("nosource_mid", "ValueError", 2), ("library", "CliKitException", None), ("blank_first", "ValueError", 4)]
 
 
 def _raise(site, msg):
@@ -57,6 +58,8 @@ def _raise(site, msg):
         _NS2["via"](msg)
     elif site == "library":
         raise CliKitException(msg)
+    elif site == "blank_first":
+        blankfirst.blank_first(msg)
     else:
         outer.call(site, msg)
 
@@ -85,8 +88,11 @@ def _render(exc, verbosity, simple, utf8, ignore):
 
 def _check_render(out, site, cls, line, msg, verbosity, simple, utf8, ignore):
     shown_msg = ("custom<%s>" % msg) if site == "custom" else (repr(msg) if cls == "KeyError" else msg)
-    if _norm(shown_msg) not in _norm(out):
-        return False                                   # the message text (markup aside) is there
+    # the message text is there: verbatim, or at least with nothing but its style tags taken out (backslashes, '<', '>' are text)
+    ws = lambda t: re.sub(r"\s+", " ", t).strip()
+    tagless = re.sub(r"(?i)</?[a-z][a-z0-9,_=;-]*>|</>", "", shown_msg)
+    if ws(shown_msg) not in ws(out) and ws(tagless) not in ws(out):
+        return False
     if simple:
         return True
     if cls not in out:
@@ -113,13 +119,14 @@ def _check_render(out, site, cls, line, msg, verbosity, simple, utf8, ignore):
     arrow = "→" if utf8 else ">"
     if any(b[1] and b[1] != arrow for b in block):
         return False
+    src_lines = BLANK_LINES if site == "blank_first" else SRC_LINES
     for n, _, text in block:
-        if n in MULTI_TOKEN_LINES:
+        if n in MULTI_TOKEN_LINES and site != "blank_first":
             continue
-        if n > len(SRC_LINES) or text.rstrip() != SRC_LINES[n - 1].rstrip():
+        if n > len(src_lines) or text.rstrip() != src_lines[n - 1].rstrip():
             return False                               # source lines made of single-line tokens appear verbatim
     # frames under an ignored path are left out of the stack listing unless the verbosity is debug
-    if verbosity >= 1 and site not in ("nosource", "library", "nosource_mid"):
+    if verbosity >= 1 and site not in ("nosource", "library", "nosource_mid", "blank_first"):
         listed_outer = "tracegen/lib/outer.py" in out
         listed_inner_frames = len(re.findall(r"tracegen/inner\.py:\d+ in ", out))
         if ignore == IGNORES[1] and verbosity < 3 and listed_outer:
